@@ -79,6 +79,11 @@ def gen_tree(rng, n_secs, depth_max):
             continue
         nd = node(depth)
         nd["name"] = rng.choice(free)
+        if rng.random() < 0.12:
+            # a Section created without a name: it is named by its id (fixed here, so that paths
+            # can be written down); the name is content, a copy keeps it and gets a fresh id
+            nd["name"] = "0000%04x-0000-4000-8000-%012x" % (counter[0], counter[0])
+            nd["unnamed"] = True
         sibs.append(nd)
         all_nodes.append((nd, depth, sibs))
     return roots
@@ -208,7 +213,9 @@ def generate(run_seed):
 # ---------------------------------------------------------------------------- execution
 def build(odml, roots, parent):
     for nd in roots:
-        sec = odml.Section(name=nd["name"], type=nd["type"], parent=parent,
+        sec = odml.Section(name=None if nd.get("unnamed") else nd["name"],
+                           oid=nd["name"] if nd.get("unnamed") else None,
+                           type=nd["type"], parent=parent,
                            repository=nd.get("repository"), definition=nd.get("definition"),
                            reference=nd.get("reference"))
         for p in nd["props"]:
